@@ -429,8 +429,22 @@ C01_AllLanesFailed ==
   Quiescent => \A t \in Tasks :
      (\A l \in Range(lanes[t]) : \E f \in (failedDo \cup failedUndo) \ {t} : chgOf[f] = chgOf[t] /\ l \in Range(lanes[f]))
        => (status[t] # "Done" \/ ~hasUndo[t] \/ t \notin everDone)
-\* (f) reverse order: an undo never starts while a task that waited on it is pending/running -> c02bad
-C01 == C01_SettlesError /\ C01_WaitersHeld /\ C01_LaneReverted /\ C01_HealthyComplete /\ C01_AllLanesFailed /\ ~c02bad
+\* (f) the healthy-lane exemption itself, in the one situation where the statement pins it down without
+\*     reference to the algorithm: no dependencies, a single failed task, no abort. Then every task that has
+\*     a lane shared with a task wholly outside the failed task's lanes is in a healthy lane and completes
+\*     (tasks in WaitStatus whose waited status is Done count as healthy: they are effectively done).
+C01_SingleFailureIndependent ==
+  Quiescent => \A c \in Changes :
+     (aborted = {} /\ failedUndo = {} /\ Cardinality(Seeds(c)) = 1 /\ \A u \in TasksOf(c) : waits[u] = {}) =>
+        LET f == CHOOSE x \in Seeds(c) : TRUE
+            Lf == Range(lanes[f])
+            Outsider(u) == Range(lanes[u]) \cap Lf = {}
+        IN \A t \in TasksOf(c) \ {f} :
+              (Outsider(t) \/ \E l \in Range(lanes[t]) \ Lf : \E u \in TasksOf(c) : Outsider(u) /\ l \in Range(lanes[u]))
+                 => status[t] = "Done"
+\* (g) reverse order: an undo never starts while a task that waited on it is pending/running -> c02bad
+C01 == C01_SettlesError /\ C01_WaitersHeld /\ C01_LaneReverted /\ C01_HealthyComplete /\ C01_AllLanesFailed
+       /\ C01_SingleFailureIndependent /\ ~c02bad
 
 \* C02 ------------------------------------------------------------------
 C02 == ~c02bad
